@@ -50,8 +50,9 @@ def format_code(text, filename):
                 f"""\
 [b]The format_command '{escape(format_command)}' caused the following error:[/b]
 """
-                + result.stdout.decode("utf-8")
-                + result.stderr.decode("utf-8")
+                # the output of the command is no rich markup
+                + escape(result.stdout.decode("utf-8", "replace"))
+                + escape(result.stderr.decode("utf-8", "replace"))
             )
             return text
 
